@@ -2,7 +2,7 @@
 MUST-victim-counted, MUST-reject-touches-nothing, MUST-admit-or-remove, CMP-oversize, CMP-capacity,
 CMP-evict, SCAN-from-front, MUST-recency, MUST-evict."""
 from .core import RuleResult, CheckFailure
-from .roles import ev_is, wrapper_kind
+from .roles import ev_is, wrapper_kind, ts_name_kind, sync_ts_fields
 from .roles import CHAN_RECV
 from .roles import named
 from .kernel import norm
@@ -44,13 +44,107 @@ def _ordered_literals(p):
     return [norm_literal(c, v) for c, v in p.conds]
 
 
+def _consumer_of(ctx, nid):
+    for a, k in admits(ctx):
+        if a == nid:
+            return named(ctx, 'unsync.insert_handler' if k == 'unsync' else 'sync.upsert')
+    return None
+
+
+def _project(ctx, v, path):
+    """Follow an access path (('fld', name) / ('payload', variant, idx)) into a returned aggregate; None if not determined."""
+    for step in path:
+        if not (isinstance(v, tuple) and v):
+            return None
+        if v[0] == 'aggr':
+            if step[0] == 'payload':
+                if v[2] != step[1] or step[2] >= len(v[3]):
+                    return None
+                v = v[3][step[2]]
+            else:
+                adt = ctx.prog.adts.get(norm(str(v[1])))
+                names = None
+                if adt:
+                    for var in adt['variants']:
+                        if var['name'] == v[2] or len(adt['variants']) == 1:
+                            names = [f['name'] for f in var['fields']]
+                idx = names.index(step[1]) if names and step[1] in names else (step[1] if isinstance(step[1], int) else None)
+                if idx is None or idx >= len(v[3]):
+                    return None
+                v = v[3][idx]
+        elif v[0] == 'tuple' and step[0] == 'fld' and isinstance(step[1], int) and step[1] < len(v[1]):
+            v = v[1][step[1]]
+        else:
+            return None
+    return v
+
+
+def _tag_of(ctx, v):
+    if isinstance(v, tuple) and v and v[0] == 'aggr':
+        from .symex import STD_VARIANTS
+        names = STD_VARIANTS.get(v[1])
+        if names is None:
+            adt = ctx.prog.adts.get(norm(str(v[1])))
+            names = [x['name'] for x in adt['variants']] if adt else None
+        if names and v[2] in names:
+            return names.index(v[2])
+    return None
+
+
+def admission_verdict(ctx, nid):
+    """How the consumer of the scan tells an admission from a rejection -- by what it then does: the value tests on the scan's result
+    that lead to the candidate being linked (push to the access-order deque).  Returns f(ret) -> 'Admitted' | 'Rejected' | None.
+    Independent of how the result is represented (two-variant enum, struct with an Option, ...)."""
+    key = ('admission_verdict', nid)
+    if key in ctx.cache:
+        return ctx.cache[key]
+    cons = _consumer_of(ctx, nid)
+    pats = {'Admitted': [], 'Rejected': []}
+    if cons and cons in ctx.prog.bodies:
+        for p in _run(ctx, cons, inline_depth=2, loop_visits=2, inline_pred=lambda n_, bb, d: False if n_ == nid else None):
+            if p.diverged:
+                continue
+            called = [e for e in p.events if e[0] == 'call' and e[1] == nid]
+            if not called:
+                continue
+            R = called[0][6] if len(called[0]) > 6 else None
+            lits = []
+            for c, v in p.conds:
+                if isinstance(c, tuple) and c[0] == 'discr' and isinstance(v, int):
+                    x, path = c[1], []
+                    while isinstance(x, tuple) and x and x[0] in ('fld', 'payload') and x != R:
+                        path.append(('fld', x[2]) if x[0] == 'fld' else ('payload', x[2], x[3]))
+                        x = x[1]
+                    if x == R and R is not None:
+                        lits.append((tuple(reversed(path)), v))
+            pushed = any(ev_is(ctx, e, 'push', 'ao') for e in p.events) or any(
+                e[0] == 'call' and e[1] in ctx.prog.bodies and (wrapper_kind(ctx, e[1]) or (None,))[0] == 'push' for e in p.events)
+            if lits:
+                pats['Admitted' if pushed else 'Rejected'].append(tuple(lits))
+
+    def f(ret):
+        for verdict in ('Admitted', 'Rejected'):
+            for lits in pats[verdict]:
+                ok = True
+                for path, want in lits:
+                    t = _tag_of(ctx, _project(ctx, ret, path))
+                    if t is None or t != want:
+                        ok = False
+                        break
+                if ok:
+                    return verdict
+        return None
+    ctx.cache[key] = f
+    return f
+
+
 def admit_summary(ctx, nid):
     """Per return path of an admission scan: verdict, last weight literal, last frequency literal, accumulators."""
     rows = []
     for p in _run(ctx, nid, inline_depth=3, loop_visits=2):
         if p.diverged or not (isinstance(p.ret, tuple) and p.ret[0] == 'aggr'):
             continue
-        verdict = p.ret[2]
+        verdict = admission_verdict(ctx, nid)(p.ret) or p.ret[2]
         lastW = lastF = None
         loopW = []
         for t, v in _ordered_literals(p):
@@ -422,6 +516,27 @@ def rule_cmp_evict(ctx):
                     if not front:
                         r.violate(nid, 'evict-not-front', fmt(keyarg)[:50], 'the eviction loop of %s removes a key that is not the front (LRU) node of the deque' % nid, where=ctx.where(nid, e[3]),
                                   expected='remove the key of deque.peek_front()')
+        # (unsync) nothing else gates the eviction: a call that removes nothing is explained by "unbounded", "nothing (more) to evict",
+        # "deque empty" or "batch exhausted" -- never by other state (a cached flag goes stale)
+        if kind == 'unsync':
+            for p in paths:
+                if any(e[0] == 'call' and e[1] in HASHMAP_REMOVE for e in p.events):
+                    continue
+                why = None
+                for t, v in p.conds:
+                    if isinstance(t, tuple) and t[0] == 'discr' and has_field(t[1], ('max_capacity',)) and v == 0 and not any(isinstance(x, tuple) and x and x[0] == 'call' for x in subterms(t[1])):
+                        why = 'unbounded'
+                    if isinstance(t, tuple) and t[0] == 'discr' and v == 0 and isinstance(t[1], tuple) and t[1][0] == 'call' and (t[1][1] in R.front or str(t[1][1]).endswith('::next')):
+                        why = why or ('deque empty' if t[1][1] in R.front else 'batch exhausted')
+                for t, v in _ordered_literals(p):
+                    if isinstance(t, tuple) and t[0] == 'cmp' and t[1] == 'le' and v is True and isinstance(strip_cast(t[2]), tuple) and strip_cast(t[2])[0] == 'bin' and \
+                            strip_cast(t[2])[1] == 'saturating_sub' and has_field(t[2], ('weighted_size',)):
+                        why = why or 'nothing to evict'
+                r.instance(function=nid, no_removal_path_explained_by=why)
+                if why is None:
+                    r.violate(nid, 'evict-gated', 'no-removal', 'a path of %s removes nothing although the cache is bounded and neither `weights_to_evict <= evicted`, an empty deque nor the batch '
+                              'limit was established (conditions: %s): the excess left by a growing update is not removed by the following operations' % (
+                                  nid, [fmt(t)[:50] + '==' + str(v) for t, v in p.conds][:6]), where=ctx.where(nid), expected='evict whenever weighted_size > max_capacity')
         if (seen_exit < 1 or seen_rm < 1) and not r.violations:
             raise CheckFailure('CMP-evict: exit test / removal not recognised in %s (%d, %d)' % (nid, seen_exit, seen_rm))
     # weights_to_evict role
@@ -562,7 +677,7 @@ def rule_must_recency(ctx):
         # every received read op is recorded: +1 sketch increment per Hit and per Miss, and one (guarded) advance of the
         # entry's last-accessed time per Hit -- independent of whether the entry is admitted yet
         EI = 'common::concurrent::entry_info::EntryInfo'
-        ts_writers = {x for x in prog.bodies if ('write', EI, 'last_accessed') in ctx.eff.direct.get(x, ())}
+        ts_writers = {x for x in prog.bodies if any(('write', a_, f_) in ctx.eff.direct.get(x, ()) for a_, f_ in sync_ts_fields(ctx) if ts_name_kind(f_) == 'ao')}
         for c in sorted(cons):
             is_read = any('ReadOp' in t.get('self_ty', {}).get('s', '') for _, t in prog.bodies[c].calls() if prog.call_targets(prog.bodies[c], t)[1] in CHAN_RECV)
             if not is_read:
